@@ -46,7 +46,8 @@ fn next_half(
 	// Also it is not a good idea to use `match value.partial_cmp(slice[half]): it is slower.
 	if value.to_bits() == get(slice, half).to_bits() {
 		padding + half
-	} else if &value > get(slice, half) {
+	// `total_cmp` keeps `-0.0` before `+0.0`, so both zeros can always be found again by their bits
+	} else if value.total_cmp(get(slice, half)) == Ordering::Greater {
 		f(value, get(slice, (half + 1)..), padding + half + 1)
 	} else {
 		f(value, get(slice, ..half), padding)
@@ -253,14 +254,10 @@ impl<'de> Deserialize<'de> for SMM {
 
 		let mut slice = window.as_slice().to_owned().into_boxed_slice();
 
-		let mut sort_error = false;
+		let sort_error = slice.iter().any(|x| x.is_nan());
 
-		slice.sort_unstable_by(|a, b| {
-			a.partial_cmp(b).unwrap_or_else(|| {
-				sort_error = true;
-				Ordering::Equal
-			})
-		});
+		// must be the same ordering as in `next_half`
+		slice.sort_unstable_by(ValueType::total_cmp);
 
 		if sort_error {
 			return Err(serde::de::Error::custom("SMM cannot operate NaN values"));
